@@ -373,7 +373,8 @@ impl ZmtpUringHandler {
         }
         AppAction::PeerError(e) => {
           warn!(fd = self.fd, err = %e, "ZmtpUringHandler: peer error");
-          self.is_closing = true;
+          // `is_closing` is left to close_initiated(): set here, that call would take the
+          // close for already under way and never queue it.
           let _ = self
             .worker_io_config
             .socket_mailbox
